@@ -531,7 +531,9 @@ func c01Negation(c *an.Ctx) {
 		ok := name == "internal/corazawaf.(*Rule).SetOperator"
 		c.Check(ok, "R3", "operator.Negation written by "+name, fs.Store.Pos(), "value "+e, "operator.Negation is written outside SetOperator")
 		if ok {
-			c.Check(strings.Contains(e, `[0] == 33`) || strings.Contains(e, "33"), "R3", "SetOperator derives Negation from the leading '!'", fs.Store.Pos(), e, "Negation is computed as "+e)
+			// first byte == '!' in either spelling: name[0] == '!' under a length guard, or strings.HasPrefix(name, "!")
+			fromBang := strings.Contains(e, `[0] == 33`) || strings.Contains(e, "33") || strings.Contains(e, `strings.HasPrefix(`) && strings.Contains(e, `,"!")`)
+			c.Check(fromBang, "R3", "SetOperator derives Negation from the leading '!'", fs.Store.Pos(), e, "Negation is computed as "+e)
 		}
 	}
 }
